@@ -4,7 +4,7 @@ open Qx.Driver Qx.C15
 
 /-
 Op lines (space separated):
-  reset ctl=<0|1> comp=<n> fix=<0|1>
+  reset ctl=<0|1> comp=<n>
   creds
   addr <addr> <prio>
   connect
@@ -59,10 +59,10 @@ def doStep (s : St) (op : Op) : St × String :=
 
 def stepLine (s : St) (line : String) : St × String :=
   match words line with
-  | ["reset", c, k, f] =>
-    match kv c "ctl", kv k "comp", kv f "fix" with
-    | some c, some k, some f => (init (c != 0) k (f != 0), "ok")
-    | _, _, _ => (s, "bad-op")
+  | ["reset", c, k] =>
+    match kv c "ctl", kv k "comp" with
+    | some c, some k => (init (c != 0) k, "ok")
+    | _, _ => (s, "bad-op")
   | ["creds"] => doStep s .setRemoteCreds
   | ["addr", a, p] =>
     match a.toNat?, p.toNat? with
